@@ -354,7 +354,7 @@ func (in *Interp) reportViolation(kind, msg string, model map[string]uint64) {
 		}
 	}
 	for _, old := range in.stats.violations {
-		if old.Msg == msg && old.Kind == kind {
+		if old.Kind == kind && stripDigits(old.Msg) == stripDigits(msg) {
 			in.stats.dupViolations++
 			return // one witness per failing assertion is enough
 		}
